@@ -94,6 +94,22 @@ def judgeGo (c : Ctx) (pos marked : Nat) : List Tok → List Tok → Verdict
 
 def judgeToks (base probe : List Tok) : Verdict := judgeGo Ctx.init 0 0 base probe
 
+/-- Empty-string probe of a `*string` field: the probe's stream must keep the baseline's skeleton; only the
+words that carry the marker in the BASELINE (the benign value) may be replaced by another word. -/
+def judgeEmptyGo (c : Ctx) (pos : Nat) : List Tok → List Tok → Verdict
+  | [], [] => .ok 0
+  | [], p :: _ => .fail "empty-argument" pos ("extra token " ++ tokStr p ++ " after " ++ ctxStr c)
+  | b :: _, [] => .fail "empty-argument" pos ("missing token " ++ tokStr b ++ " after " ++ ctxStr c)
+  | b :: bs, p :: ps =>
+    if b == p then judgeEmptyGo (c.advance p) (pos + 1) bs ps
+    else match b, p with
+      | .word sb _, .word _ _ =>
+        if hasMarker sb then judgeEmptyGo (c.advance p) (pos + 1) bs ps
+        else .fail "empty-argument" pos (tokStr p ++ " instead of " ++ tokStr b ++ " in " ++ ctxStr c)
+      | _, _ => .fail "empty-argument" pos (tokStr p ++ " instead of " ++ tokStr b ++ " in " ++ ctxStr c)
+
+def judgeEmpty (base probe : List Tok) : Verdict := judgeEmptyGo Ctx.init 0 base probe
+
 /-- the skeleton of a token stream: marker-bearing words are replaced by a placeholder -/
 def skeleton (ts : List Tok) : List Tok :=
   ts.map (fun t => match t with
